@@ -49,7 +49,9 @@ class C05(Property):
             'HISTORIES: 3-11 calls on one ReactionSystem object (composition_balance_vectors, check_balance, composition_violation, '
             'get_odesys.linear_invariants) interleaved with sort_substances_inplace, re-ordering of rsys.substances, += of another system, '
             'deleting / permuting reactions, re-assigning a composition; every observation compared with the stateless model on the current '
-            'state. A case is non-trivial when it is a distinct JSON value with at least one reaction.')
+            'state; MULTI-CONSTRUCTION: 2-4 different systems constructed one after the other in one process with the documented options '
+            'checks= / dont_check= (any subset of the default checks), unknown keys and duplicated reactions, class-level default_checks '
+            'compared after every construction. A case is non-trivial when it is a distinct JSON value with at least one reaction.')
     assumptions = ('composition amounts are exact numbers (int / Fraction); decimal formula counts (floats) are outside the exact model',
                    'sympy Matrix.rref (reduced rows and pivots) is delegated: the model is given its output',
                    'numerical integration keeping the invariants to solver tolerance is runtime behaviour of the delegated integrator, '
@@ -68,6 +70,9 @@ class C05(Property):
         'the matrix handed to the analytic solver is the rref of the composition vectors (sympy, delegated): correspondence only',
         'decimal (float) composition amounts: the exact model is compared with the float implementation (accepted iff exactly balanced) '
         'outside the open finding check_balance:float-roundoff-decimal-compositions; no theorem about float arithmetic',
+        'the constructor options checks= / dont_check= (modelled as constructorChecks; theorem only for the default selection) and the '
+        'independence of one construction from earlier constructions in the same process (class-level default_checks never modified): '
+        'multi-construction correspondence and oracle only',
         'results depend only on the current state of the object (no stale caches after sort_substances_inplace, +=, re-assigned '
         'compositions) and hold for array-valued concentrations without modifying inputs: history / batched correspondence and oracle only',
     )
@@ -198,6 +203,9 @@ class C05(Property):
             if i % 8 == 5:
                 cases.append(self._history(rng, tier))
                 continue
+            if i % 16 == 3:
+                cases.append(self._multi(rng, tier))
+                continue
             subs, rxns, planted, charge_kw = self._system(rng, tier, formulas=rng.random() < 0.25)
             scale = rng.choice([[1, 10], [3, 10], [7, 10], [1, 100]]) if rng.random() < 0.12 else rng.choice([1, 1, 1, [1, 2], [3, 2]])
             dec = isinstance(scale, list) and scale[1] in (10, 100)       # decimal amounts: the real code computes with floats
@@ -258,6 +266,47 @@ class C05(Property):
             cases.append(c)
         return cases
 
+
+    # ---- several DIFFERENT systems constructed one after the other in one process, with the checks= / dont_check= options ------
+    DEFAULT_CHECKS = ('balance', 'substance_keys', 'duplicate', 'duplicate_names')
+
+    def _multi(self, rng, tier):
+        steps = []
+        for _ in range(rng.randint(2, 4)):
+            subs, rxns, planted, charge_kw = self._system(rng, tier, formulas=rng.random() < 0.25)
+            sj = [[k, _comp_json(c)] for k, c in subs.items()]
+            rxns = [dict(x) for x in rxns]
+            m = rng.random()
+            used = [k for k, _ in sj if any(k in kg.spec_keys(x) for x in rxns)]
+            if m < 0.2 and used:
+                drop = rng.choice(used)
+                sj = [p for p in sj if p[0] != drop]
+            elif m < 0.35 and rxns:
+                rxns.append(dict(rng.choice(rxns)))
+            o = rng.random()
+            if o < 0.4:
+                opt = None
+            elif o < 0.75:
+                opt = {'dont_check': sorted(rng.sample(self.DEFAULT_CHECKS, rng.randint(1, 3)))}
+            else:
+                opt = {'checks': sorted(rng.sample(self.DEFAULT_CHECKS, rng.randint(0, 4)))}
+            steps.append({'op': 'construct', 'subs': sj, 'rxns': rxns, 'planted': planted, 'charge_kw': charge_kw, 'alias': {}, 'opt': opt})
+        return {'op': 'multi_construct', 'steps': steps}
+
+    def _effective(self, opt):
+        if not opt:
+            return set(self.DEFAULT_CHECKS)
+        if 'checks' in opt:
+            return set(opt['checks'])
+        return set(self.DEFAULT_CHECKS) ^ set(opt['dont_check'])
+
+    @staticmethod
+    def _ctor_kwargs(opt):
+        if not opt:
+            return {}
+        if 'checks' in opt:
+            return {'checks': tuple(opt['checks'])}
+        return {'dont_check': set(opt['dont_check'])}
 
     # ---- histories: several calls on ONE ReactionSystem object with mutations in between ------------------------
     @staticmethod
@@ -506,10 +555,16 @@ class C05(Property):
             m['rxns'] = [kg.readback(kg.mk_reaction(s, 'int'), s) for s in c['rxns']]
         if 'rxn' in c:
             m['rxn'] = kg.readback(kg.mk_reaction(c['rxn'], 'int'), c['rxn'])
+        if op == 'multi_construct':
+            return {'op': 'history', 'steps': [self.model_case(st) for st in c['steps']], 'orig': c}
         if op == 'construct':
             from chempy import ReactionSystem
+            eff = self._effective(c.get('opt'))
             rs = ReactionSystem([kg.mk_reaction(x, 'int') for x in c['rxns']], self._substances(c['subs'], c=c), checks=())
-            m['dup_ok'] = bool(rs.check_duplicate() and rs.check_duplicate_names())     # not modelled: taken from the real checks
+            # duplicate / duplicate_names are not modelled: their outcome (for the selected ones) is taken from the real checks
+            m['dup_ok'] = bool(('duplicate' not in eff or rs.check_duplicate()) and ('duplicate_names' not in eff or rs.check_duplicate_names()))
+            m['do_balance'] = 'balance' in eff
+            m['do_keys'] = 'substance_keys' in eff
         if op == 'attr_violation':
             if c['which'] == 'mass_given':
                 m['attrs'] = c['masses']
@@ -551,6 +606,8 @@ class C05(Property):
         from chempy import ReactionSystem
         op = c['op']
         try:
+            if op == 'history' and c['orig']['op'] == 'multi_construct':
+                return ' | '.join(self.impl(st) for st in c['steps'])
             if op == 'history':
                 o = c['orig']
                 rsys, _ = self._rsys(o)
@@ -564,7 +621,8 @@ class C05(Property):
                 return ' | '.join(outs)
             if op == 'construct':
                 try:
-                    ReactionSystem([kg.mk_reaction(x, 'int') for x in c['rxns']], self._substances(c['subs'], c=c))
+                    ReactionSystem([kg.mk_reaction(x, 'int') for x in c['rxns']], self._substances(c['subs'], c=c),
+                                   **self._ctor_kwargs(c.get('opt')))
                     return 'True'
                 except ValueError:
                     return 'ValueError'
@@ -690,6 +748,12 @@ class C05(Property):
             return self._oracle_history(c)
         if op == 'construct':
             return self._oracle_construct(c)
+        if op == 'multi_construct':
+            for n, st in enumerate(c['steps']):
+                f = self._oracle_construct(st)
+                if f:
+                    return 'construction %d of %d (options so far: %s): %s' % (n + 1, len(c['steps']), [x['opt'] for x in c['steps'][:n + 1]], f)
+            return None
         return None
 
     def _oracle_construct(self, c):
@@ -705,15 +769,22 @@ class C05(Property):
         bal = True if any(cj is None for _, cj in c['subs']) else all(not v for v in viol)
         if not names and c['rxns']:
             return None
+        eff = self._effective(c.get('opt'))
         try:
-            ReactionSystem([kg.mk_reaction(x, 'int') for x in c['rxns']], self._substances(c['subs'], c=c))
+            ReactionSystem([kg.mk_reaction(x, 'int') for x in c['rxns']], self._substances(c['subs'], c=c), **self._ctor_kwargs(c.get('opt')))
             res, err = True, None
         except ValueError as e:
             res, err = False, str(e)
-        want = known and nodup and bal
+        from chempy import Reaction
+        from chempy.equilibria import EqSystem
+        if (set(ReactionSystem.default_checks) != set(self.DEFAULT_CHECKS) or set(EqSystem.default_checks) != set(self.DEFAULT_CHECKS)
+                or set(Reaction.default_checks) != {'any_effect', 'all_positive', 'all_integral', 'consistent_units'}):
+            return ('constructing a system with options %s changed the class-level default_checks to %s: later systems are checked differently'
+                    % (c.get('opt'), sorted(ReactionSystem.default_checks)))
+        want = ('substance_keys' not in eff or known) and ('duplicate' not in eff or nodup) and ('balance' not in eff or bal)
         if res != want:
-            return 'constructor %s (%s) although keys known=%s, no duplicate=%s, balanced=%s' % (
-                'accepted' if res else 'rejected', err, known, nodup, bal)
+            return 'constructor(%s) %s (%s) although keys known=%s, no duplicate=%s, balanced=%s, selected checks=%s' % (
+                c.get('opt'), 'accepted' if res else 'rejected', err, known, nodup, bal, sorted(eff))
         return None
 
     def _oracle_history(self, c):
@@ -969,6 +1040,8 @@ class C05(Property):
 
     def classify(self, c):
         op = c.get('op')
+        if op == 'multi_construct':
+            return 'multi_construct:' + '+'.join(sorted({('default' if not x['opt'] else list(x['opt'])[0]) for x in c['steps']}))
         if op == 'history':
             return 'history:' + '+'.join(sorted({x['do'] for x in c['steps'] if x['do'] != 'obs'}))
         p = c.get('planted')
@@ -982,7 +1055,7 @@ class C05(Property):
         return '%s:%s%s' % (op, pl, ':no-composition' if nocomp else '')
 
     def nontrivial(self, c):
-        return bool(c.get('rxns') or c.get('rxn'))
+        return bool(c.get('rxns') or c.get('rxn') or c.get('steps'))
 
 
 PROPERTY = C05()
